@@ -87,10 +87,10 @@ class C08(C02):
             "commit of refs/notes/ai is scanned: no canary unless the effective mode (computed by an independent model "
             "of the documented precedence) is notes, and never an unmasked vetted token. distinct = digest of family x "
             "ops x configuration; non-trivial = a note with a prompt record was scanned")
-    assumptions = ["agents with inline transcripts (agent-v1); re-fetched transcripts need agent-specific files and are "
-                   "not simulated", "the user is not logged in (no CAS upload), as in the sandbox"]
+    assumptions = ["two agent kinds: inline transcript (agent-v1) and a Claude-Code-style transcript file that git-ai "
+                   "re-fetches at commit time (claude preset, PreToolUse/PostToolUse hooks)", "the user is not logged in (no CAS upload), as in the sandbox"]
     expected_probes = ["scan.blobs", "scan.prompt_record_seen", "mode.default", "mode.local", "mode.notes",
-                       "canary.allowed_and_present", "family.amend", "family.partial", "family.fastpath"]
+                       "canary.allowed_and_present", "family.amend", "family.partial", "family.fastpath", "agent.claude", "agent.inline"]
 
     def draw_hazards(self, rng, tier):
         return {}
@@ -105,6 +105,8 @@ class C08(C02):
         h["cfg"]["effective"] = expect
         h["cfg"]["tokens"] = rng.random() < 0.6
         h["cfg"]["run_tag"] = "%06x" % rng.getrandbits(24)
+        # agent kind: inline transcript (agent-v1) or a transcript file that git-ai re-fetches (claude)
+        h["cfg"]["agent_kind"] = "claude" if rng.random() < 0.4 else "agent-v1"
         return h
 
     def after_init(self, ex, cfg):
@@ -125,6 +127,11 @@ class C08(C02):
                     text += " using token %s ok" % rng.choice(VETTED)
                 op["transcript"] = [{"type": "user", "text": text},
                                     {"type": "assistant", "text": "done %s-reply" % canary}]
+                if cfg.get("agent_kind") == "claude":
+                    op["agent"] = "claude"
+                    ex.probe("agent.claude")
+                else:
+                    ex.probe("agent.inline")
                 ex.gen_state.setdefault("canaries", []).append(canary)
             yield op
 
